@@ -21,6 +21,14 @@ P2c == (1 :> <<Flt(0, "not1", 1), Flt(1, "S1", 2)>>) @@ (2 :> <<Lint(1, "crl", 2
 P3a == (1 :> <<Lint(1, "cert", 0)>>) @@ (2 :> <<Flt(0, "cert", 1), Lint(2, "cert", 1)>>) @@ (3 :> <<[op |-> "Names", r |-> 0], Lint(3, "cert", 1)>>)
 P3b == (1 :> <<Flt(0, "S1", 1), Rd("Listing", 2, <<"cert", "ocsp", "crl">>, 0, "")>>) @@ (2 :> <<Flt(0, "not1", 2), Rd("Sources", 1, <<"cert", "crl", "ocsp">>, 0, "")>>) @@ (3 :> <<Lint(1, "crl", 1), Lint(2, "ocsp", 2), Rd("BySource", 0, <<"cert">>, 0, "S2")>>)
 Pad3(P) == [g \in {1, 2, 3} |-> IF g \in DOMAIN P THEN P[g] ELSE <<>>]
+\* thorough tier: three goroutines with three operations each, chains of filters, every reader
+P3c == (1 :> <<Flt(0, "not1", 1), Lint(1, "cert", 1), Rd("Lints", 2, <<"cert">>, 0, "")>>) @@
+       (2 :> <<Lint(2, "cert", 0), Flt(1, "cert", 2), Lint(3, "cert", 2)>>) @@
+       (3 :> <<[op |-> "Names", r |-> 0], Lint(1, "ocsp", 1), [op |-> "Names", r |-> 2]>>)
+P3d == (1 :> <<Lint(1, "cert", 0), Lint(2, "crl", 0), Lint(3, "ocsp", 0)>>) @@
+       (2 :> <<Flt(0, "S1", 1), Flt(0, "cert", 2), Rd("Sources", 1, <<"cert", "crl", "ocsp">>, 0, "")>>) @@
+       (3 :> <<Rd("ByName", 0, <<"cert">>, 3, ""), Lint(2, "cert", 2), Rd("Listing", 1, <<"cert", "ocsp", "crl">>, 0, "")>>)
+ProgramsHuge == {P3c, P3d}
 ProgList == <<Pad3(P2a), Pad3(P2b), Pad3(P2c), P3a, P3b>>
 Programs2 == {P2a, P2b, P2c}
 ProgramsBig == {P3a, P3b}
